@@ -448,7 +448,15 @@ class QuantPart(Part):
                 j += burst - 1
             elif r < 0.74 and len(live) > 1:
                 d = rng.choice([x for x in live if x != s])
+                qb = rng.random() < 0.6
+                if qb:      # query -> merge -> query with no update in between: the queries cache the sorted view, the merge must drop it
+                    emit("quant %d %s %d" % (d, rank_hex(rng.choice([0.0, 0.5, 1.0])), rng.randrange(2)))
                 emit("merge %d %d %s" % (d, s, rng.choice("lr")))
+                if qb:
+                    emit("view %d" % d)
+                    emit("quant %d %s %d" % (d, rank_hex(1.0), 1))
+                    emit("quant %d %s %d" % (d, rank_hex(0.0), 0))
+                    emit("quant %d %s %d" % (d, rank_hex(0.5), rng.randrange(2)))
             elif r < 0.77 and nxt < 6:
                 emit("copy %d %d" % (s, nxt))
                 patterns[nxt] = rng.choice(["rand", "asc", "dups"])
